@@ -181,7 +181,9 @@ class OutProtocolBase(ProtocolMixin):
         if isinstance(fault, InvalidCredentialsError):
             return HTTP_401
 
-        if isinstance(fault, Fault) and (fault.faultcode.startswith('Client.')
+        if isinstance(fault, Fault) and isinstance(fault.faultcode,
+                                                         six.string_types) \
+                    and (fault.faultcode.startswith('Client.')
                                                 or fault.faultcode == 'Client'):
             return HTTP_400
 
